@@ -69,8 +69,13 @@ Proof. reflexivity. Qed.
 
 (* leaderBeforeAdd: an allowed current peer; leaderBeforeRemove: an allowed current peer, the promoted or the added
    peer - never the store that is demoted or removed *)
+(* allowLeaderAfter: allowLeader with the given store as current leader (set, restored on return) *)
+Lemma skel_allowLeaderAfter_ok : skel_allowLeaderAfter =
+  [Assign "b.currentLeaderStoreID" "= leader"; DeferE [Assign "b.currentLeaderStoreID" "= (b.currentLeaderStoreID)"]; Call "allowLeader"; Ret].
+Proof. reflexivity. Qed.
+
 Lemma skel_planReplaceLeaders_ok : skel_planReplaceLeaders =
-  [ForE [Call "allowLeader"; IfE "!b.allowLeader(b.currentPeers[each#v(b.currentPeers.IDs())], false)" [Cont] []; ForE [Call "allowLeader"; IfE "each#v(b.currentPeers.IDs()) != next.demote.GetStoreId() && each#v(b.currentPeers.IDs()) != next.remove.GetStoreId() && b.allowLeader(b.currentPeers[each#v(b.currentPeers.IDs())], false)" [Call "comparePlan"] []]; Call "allowLeader"; IfE "next.promote != nil && next.promote.GetStoreId() != next.demote.GetStoreId() && next.promote.GetStoreId() != next.remove.GetStoreId() && b.allowLeader(next.promote, false)" [Call "comparePlan"] []; Call "allowLeader"; IfE "next.add != nil && next.add.GetStoreId() != next.demote.GetStoreId() && next.add.GetStoreId() != next.remove.GetStoreId() && b.allowLeader(next.add, false)" [Call "comparePlan"] []]; Ret].
+  [ForE [Call "allowLeader"; IfE "!b.allowLeader(b.currentPeers[each#v(b.currentPeers.IDs())], false)" [Cont] []; ForE [Call "allowLeaderAfter"; IfE "each#v2(b.currentPeers.IDs()) != next.demote.GetStoreId() && each#v2(b.currentPeers.IDs()) != next.remove.GetStoreId() && b.allowLeaderAfter(b.currentPeers[each#v2(b.currentPeers.IDs())], each#v(b.currentPeers.IDs()))" [Call "comparePlan"] []]; Call "allowLeaderAfter"; IfE "next.promote != nil && next.promote.GetStoreId() != next.demote.GetStoreId() && next.promote.GetStoreId() != next.remove.GetStoreId() && b.allowLeaderAfter(next.promote, each#v(b.currentPeers.IDs()))" [Call "comparePlan"] []; Call "allowLeaderAfter"; IfE "next.add != nil && next.add.GetStoreId() != next.demote.GetStoreId() && next.add.GetStoreId() != next.remove.GetStoreId() && b.allowLeaderAfter(next.add, each#v(b.currentPeers.IDs()))" [Call "comparePlan"] []]; Ret].
 Proof. reflexivity. Qed.
 
 Lemma skel_plan_single_ok :
